@@ -732,6 +732,35 @@ class _CallAsSolve:
         self.node = {"args": [site.node["args"][k]]}
 
 
+def closure_invocations(prog, clo):
+    """where a closure handed to a function of the crate is called by it: list of (body, call site, operands of the argument tuple)"""
+    fn = prog.enclosing_fn(clo)
+    out = []
+    for ps in fn.sites():
+        nd = ps.node
+        if not (ps.si is not None and nd["k"] == "assign" and nd["rv"]["k"] == "aggregate" and nd["rv"]["agg"].get("kind") == "closure" and nd["rv"]["agg"].get("path") == clo.path):
+            continue
+        for x in fn.calls():
+            t = prog.body_for_callee(callee_of(x), fn) if callee_of(x) else None
+            if t is None or t.kind == "closure":
+                continue
+            for k, a in enumerate(x.node["args"]):
+                if not any(o.kind == "agg" and o.site is not None and (o.site.bb, o.site.si) == (ps.bb, ps.si) for o in origins(fn, a, transparent=())):
+                    continue
+                for y in t.calls():
+                    if callee_matches(callee_of(y), r"ops::function::(FnMut::call_mut|Fn::call|FnOnce::call_once)$") and len(y.node["args"]) == 2 and any(o.kind == "param" and o.data == k + 1 and not o.fields for o in origins(t, y.node["args"][0], transparent=())):
+                        tup = [o for o in origins(t, y.node["args"][1], transparent=()) if o.kind == "agg" and o.data.get("kind") == "tuple"]
+                        if len(tup) == 1:
+                            out.append((t, y, tup[0].site.node["rv"]["ops"]))
+    return out
+
+
+class _InvocationAsSolve:
+    def __init__(self, site, op):
+        self.bb, self.si = site.bb, site.si
+        self.node = {"args": [op]}
+
+
 def _solver_used_again(prog, b, s, solves, _depth=0):
     """can the SAT solver object of solve call s make another SAT call: s runs in a loop the solver outlives, another solve site on it is
     reachable without passing its creation, or the object is shared (handed to a function / a maximal-extension computer)"""
@@ -756,9 +785,19 @@ def _solver_used_again(prog, b, s, solves, _depth=0):
                     return True
                 fake = _CallAsSolve(c, k - 1)
                 res.append(_solver_used_again(prog, c.body, fake, [x for x in c.body.calls() if callee_matches(callee_of(x), SOLVE) or prog.body_for_callee(callee_of(x), c.body) is b], _depth + 1))
-            return any(res)
+            return True if any(x is True for x in res) else (None if any(x is None for x in res) else False)
+    if cr and all(x[0] == "passed-in" for x in cr) and b.kind == "closure" and _depth < 3:
+        # a closure working on the solver the function it is handed to gives it
+        ks = {o.data for o in origins(b, s.node["args"][0]) if o.kind == "param"}
+        inv = closure_invocations(prog, b)
+        if len(ks) == 1 and inv and all(min(ks) - 2 < len(ops) for _, _, ops in inv):
+            k = min(ks)
+            if [x for x in b.calls() if x.bb != s.bb and (callee_matches(callee_of(x), SOLVE)) and b.reaches(s.bb, x.bb)]:
+                return True
+            res = [_solver_used_again(prog, t, _InvocationAsSolve(y, ops[k - 2]), [x for x in t.calls() if callee_matches(callee_of(x), SOLVE) or x is y or (x.bb, x.si) == (y.bb, y.si)], _depth + 1) for t, y, ops in inv]
+            return None if any(x is None for x in res) else any(res)
     if not sites or len(sites) != len(cr):
-        return True  # created elsewhere / passed in: assume shared
+        return None  # created elsewhere / passed in: not known
     loops = dict(b.loops())
     for c in sites:
         for h in b.in_loop(s.bb):
@@ -823,7 +862,10 @@ def rule_local_selector_retired(ctx):
                     cl = tags.literals_of(prog, b, a.node["args"][1], set())
                     if len(cl) > 1 and any(x.pos is False and _selector_identity(prog, b, x) == ident for x in cl):
                         guarded = True
-                if ident[0] == "site" and not guarded and not _solver_used_again(prog, b, s, solves):
+                used = _solver_used_again(prog, b, s, solves) if ident[0] == "site" and not guarded else None
+                if ident[0] == "site" and not guarded and used is None:
+                    r.ok("%s|solve#%d|guard" % (b.id, k), "NOT decided: the query clause is unguarded, and the solver object is handed over by callers that are not followed", s.loc())
+                elif ident[0] == "site" and not guarded and not used:
                     r.ok("%s|solve#%d|guard" % (b.id, k), "the query clause is unguarded, but the solver object makes no other SAT call (created for this call only)", s.loc())
                 elif ident[0] == "site":
                     r.check(guarded, "%s|solve#%d" % (b.id, k), "selector-guards-nothing", "the clause stating the query carries the negated selector", "a selector is created and assumed for this SAT call, but no clause added before the call carries its negation: the query clause is unguarded and stays in the solver for every later call", s.loc())
